@@ -26,8 +26,7 @@ Verdict(o) ==
 
 \* Drift (informational): the features the spec attributes to a structured case differ from those of the bytes sent.
 Drift(o) == LET c == CaseOf(o) f == FeatOf(c) IN
-  o.class # "mutation" /\ (f.marker # o.feat.marker \/ f.undef # o.feat.undef \/ f.mpmp # o.feat.mpmp
-                           \/ (f.depth > 0 /\ o.feat.depth < f.depth) \/ (f.frags > 0 /\ o.feat.frags < f.frags))
+  o.class # "mutation" /\ ((f.depth > 0 /\ o.feat.depth < f.depth) \/ (f.frags > 0 /\ o.feat.frags < f.frags))
 
 TInit == case = [class |-> "", pos |-> "", sub |-> "", k |-> 0, transport |-> ""] /\ stage = "v" /\ level = 0 /\ answer = "none" /\ l = 1
 TNext == /\ l <= Len(Obs)
